@@ -1,7 +1,7 @@
 """Per-property configuration for /verif/check: correspondence families, case counts, variants."""
 PROPS = {}
 NOT_CLAIMED = {}
-HOOK_COMMITS = ['1939bdb', '502bacd', '48237db', '597f78f']
+HOOK_COMMITS = ['1939bdb', '502bacd', '48237db', '597f78f', '6306afa']
 def prop(pid, families=None, **kw):
     d = dict(families=families); d.update(kw); PROPS[pid] = d
 
